@@ -259,6 +259,8 @@ def items(tier, repo=None):
         sig = [i for i, (k, _) in enumerate(toks) if k not in ('ws', 'nl')]
         for n, i in enumerate(sig):
             yield 'langref-prefix:%d@%d' % (si, n), [('s.stone', 'namespace example\n\n' + untokenize(toks[:i + 1]) + '\n')]
+    for it in docref_items(tier):
+        yield it
     if tier == 'thorough':
         # pairs of deviations on the small bases
         for bi, text in enumerate(SMALL_BASES):
@@ -267,6 +269,51 @@ def items(tier, repo=None):
             for l1, t1 in firsts[::step]:
                 for l2, t2 in deviations(t1):
                     yield 'small%d|%s|%s' % (bi, l1, l2), [('a.stone', t2)]
+
+
+# ---------------------------------------------------------------------------
+# documentation references: every tag x every dotted value over a small vocabulary x every doc site
+
+DOCREF_WB = 'namespace wb\n\nstruct T\n    deep Int32\n\nalias Alt = T\n\nalias Alt2 = Alt\n\nalias AltN = T?\n\nalias Prim = Int32\n\nroute rr(T, Void, Void)\n\nroute rr:2(T, Void, Void)\n'
+DOCREF_SEGMENTS = ['', 'wb', 'nope', 'T', 'Alt', 'Alt2', 'AltN', 'Prim', 'rr', 'Loc', 'LocAl', 'PrimAl', 'rloc', 'x', 'deep', 'Uni', 'tv']
+DOCREF_SITES = ['namespace', 'struct', 'field', 'union', 'tag', 'alias', 'route']
+
+
+def docref_spec(site, ref):
+    doc = '"See %s."' % ref
+    d = {k: '' for k in DOCREF_SITES}
+    d[site] = doc
+    wa = 'namespace wa\n' + ('    %s\n' % d['namespace'] if d['namespace'] else '') + '\nimport wb\n\nstruct Loc\n' + ('    %s\n' % d['struct'] if d['struct'] else '') + \
+         '    x Int32\n' + ('        %s\n' % d['field'] if d['field'] else '') + \
+         '\nunion Uni\n' + ('    %s\n' % d['union'] if d['union'] else '') + '    tv\n' + ('        %s\n' % d['tag'] if d['tag'] else '') + '    tl Loc\n' + \
+         '\nalias LocAl = Loc\n' + ('    %s\n' % d['alias'] if d['alias'] else '') + '\nalias PrimAl = Int32\n\nroute rloc(Loc, Void, Void)\n' + ('    %s\n' % d['route'] if d['route'] else '')
+    return [('wa.stone', wa), ('wb.stone', DOCREF_WB)]
+
+
+def docref_items(tier):
+    vals = []
+    segs = DOCREF_SEGMENTS
+    for a in segs:
+        vals.append(a)
+        for b in segs:
+            vals.append(a + '.' + b)
+            for c in segs:
+                vals.append(a + '.' + b + '.' + c)
+    vals = list(dict.fromkeys(vals))
+    for site in DOCREF_SITES:
+        deep_site = site in ('struct', 'field', 'route') or tier != 'quick'
+        for tag in ('type', 'field', 'route'):
+            for v in vals:
+                if v.count('.') == 2 and not deep_site:
+                    continue
+                yield 'docref:%s:%s:%s' % (site, tag, v), docref_spec(site, ':%s:`%s`' % (tag, v))
+            if tag == 'route':
+                for v in ('rloc', 'wb.rr', 'nope', 'wb.nope'):
+                    for suffix in (':1', ':2', ':3', ':x', ':', ':-1', ':1.5', ':2:2', ':0'):
+                        yield 'docref:%s:route:%s%s' % (site, v, suffix), docref_spec(site, ':route:`%s%s`' % (v, suffix))
+        for tag, v in (('link', 'Title http://x'), ('link', 'x'), ('link', ''), ('link', ' a'), ('link', 'a '), ('val', 'null'), ('val', 'true'), ('val', '1.5'), ('val', '"s"'), ('val', 'nope'), ('val', ''),
+                       ('foo', 'x'), ('', 'x'), ('type', '`'), ('TYPE', 'Loc'), ('field', 'x y'), ('type', 'Loc Loc'), ('route', 'rloc rloc')):
+            yield 'docref:%s:%s:%s' % (site, tag, v), docref_spec(site, ':%s:`%s`' % (tag, v))
 
 
 POOL_LABELS = None
